@@ -41,6 +41,17 @@ class _Target:
         pass
 
 
+class SubEvent(SimEvent):
+    """Users may subclass SimEvent; such events live on the same list."""
+
+
+class SubEvent2(SubEvent):
+    pass
+
+
+EVENT_CLASSES = [SimEvent, SubEvent, SubEvent2]
+
+
 TARGET = _Target()
 
 
@@ -49,6 +60,7 @@ def generate(seed, tier, idx=0):
     ttype = rng.choice(["int", "float", "mixed", "duration", "float"])
     # int times far beyond 2**53 are exact ints but not representable as floats
     big = rng.choice([0, 0, 0, 2 ** 53, 10 ** 18 + 7]) if ttype == "int" else 0
+    classes = rng.choice([[0], [0], [0, 1], [0, 1, 2], [1, 2]])    # SimEvent / subclasses
     n = rng.choice([3, 4, 5, 6, 8, 10, 15, 20, 30, 45, 60])
     if rng.random() < (0.01 if tier == "quick" else 0.03):
         n = rng.choice([150, 400, 1000])      # occasional large lists
@@ -79,7 +91,7 @@ def generate(seed, tier, idx=0):
             else:
                 t = [float(t), rng.choice(["s", "s", "min", "h"])] \
                     if t != float("inf") else [float("inf"), "s"]
-            ops.append(["add", t, rng.choice(PRIOS)])
+            ops.append(["add", t, rng.choice(PRIOS), rng.choice(classes)])
         elif op == "remove":
             ops.append(["remove", rng.choice(["min", "max", "median", "random", "last"]),
                         rng.random()])
@@ -155,7 +167,7 @@ def run_history(case):
         info["ops"] += 1
         mutated = False
         if name == "add":
-            ev = SimEvent(make_time(op[1]), TARGET, "m", op[2])
+            ev = EVENT_CLASSES[op[3] if len(op) > 3 else 0](make_time(op[1]), TARGET, "m", op[2])
             all_events.append(ev)
             el.add(ev)
             ref.append(ev)
